@@ -12,7 +12,8 @@ def plan(ctx):
         unit = k * WB[be]
         for e in esets(n, 0, m):
             surv = [i for i in range(n) if i not in e]
-            for d in range(n):
+            dests = range(n) if thorough else sorted(set(e) | {surv[0]})    # quick: every erased index + one supplied index
+            for d in dests:
                 for ct in ((1, 2) if ((thorough or len(e) == m) and be == RS) else (1,)):   # checksum writing is back-end independent glue: CRC32 variants on RS only (ISA-L + real CRCs: 10 GB)
                     obs.append(l2_ob(be, k, m, hd, surv[::-1], ln=unit + 1, mode=2, dest=d, ct=ct, tag="rec"))
         emax = tuple(range(m))
